@@ -384,8 +384,15 @@ CONT("cbor_new_indefinite_array", ["H_CTOR", "CALL=cbor_new_indefinite_array()"]
 CONT("cbor_array_push", ["H_ARRAY_PUSH"], replace=["cbor_isa_array", "cbor_array_is_definite", "_cbor_safe_to_multiply", "cbor_incref"],
      must=7, covers=7, cost=60, timeout=900)
 CONT("cbor_array_get", ["H_ARRAY_GET"], replace=["cbor_incref"], must=2, covers=3, cost=10, replay="array_get")
-CONT("cbor_array_replace", ["H_ARRAY_REPLACE"], replace=["cbor_incref", "cbor_intermediate_decref"], must=4, covers=3, cost=20)
-CONT("cbor_array_set", ["H_ARRAY_SET"], replace=["cbor_array_push", "cbor_array_replace"], must=5, covers=3, cost=20)
+CONT("cbor_array_replace", ["H_ARRAY_REPLACE"], replace=["cbor_incref", "cbor_intermediate_decref/cbor_intermediate_decref__child"],
+     must=4, covers=3, cost=120, backend="cvc5", timeout=900)
+# cbor_array_set is a three-way dispatcher; its contract is discharged as three case proofs (index below / at /
+# above size, together exhaustive) because one query over both callee contracts did not finish (800 s, cvc5)
+for case in ("BELOW", "AT", "ABOVE"):
+    P(name="cont_array_set_" + case.lower(), props=dict(CONT_PROPS), lib=ITEMLIB, stubs=ITEM_STUBS + ["stubs/decref_ghost.c"],
+      contracts=CONT_CONTRACTS, harness="harness/ops.c", defines=["H_ARRAY_SET", "SET_CASE_" + case], enforce="cbor_array_set",
+      replace=["cbor_array_push", "cbor_array_replace"], must_exist=[r"cbor_array_set\.postcondition\.5"],
+      min_covers=1, cost=120, timeout=900)
 CONT("cbor_new_indefinite_map", ["H_CTOR", "CALL=cbor_new_indefinite_map()"], must=4, covers=2, cost=3)
 CONT("_cbor_map_add_key", ["H_MAP_ADD_KEY"], replace=["cbor_isa_map", "cbor_map_is_definite", "cbor_map_handle", "_cbor_safe_to_multiply", "cbor_incref"],
      must=7, covers=7, cost=60, timeout=900)
@@ -412,3 +419,14 @@ for kind, loops in (("UINT", False), ("NEGINT", False), ("FLOAT_CTRL", False), (
       loops="loops/decref.json", loop_fingerprint={"cbor_decref": 4},
       must_exist=[r"cbor_decref\.postcondition\.4"] + ([r"cbor_decref\.loop_invariant_step\.\d+"] if loops else []),
       min_covers=2, cost=60, timeout=900, object_bits=10)
+
+# ------------------------------------------------------------------------------------------------
+# L1 decoding stack with a symbolic nesting limit (C19)
+STACKLIB = ["cbor/internal/stack.c"]
+STACK_CONTRACTS = ["contracts/items_ro.h", "contracts/items_ops.h", "contracts/memory_utils.h", "contracts/items_cont.h", "contracts/stack.h"]
+for nm, d, fn, must, cov in (("init", "H_STACK_INIT", "_cbor_stack_init", 1, 1), ("push", "H_STACK_PUSH", "_cbor_stack_push", 6, 7),
+                             ("pop", "H_STACK_POP", "_cbor_stack_pop", 2, 1)):
+    P(name="stack_" + nm, props={"C19": FUNC + FRAME, "C06": FUNC + FRAME, "C13": FUNC, "C01": SAFETY, "C17": FRAME, "C04": FUNC},
+      lib=STACKLIB, stubs=ITEM_STUBS + ["stubs/stack_limit.c"], contracts=STACK_CONTRACTS, harness="harness/stack.c",
+      defines=[d, "CBOR_MAX_STACK_SIZE_IS_SYMBOLIC"], stack_symbolic=True, enforce=fn,
+      must_exist=[r"%s\.postcondition\.%d" % (fn, must)], min_covers=cov, cost=5)
